@@ -85,7 +85,7 @@ impl Node {
         n.params = p;
 
         // Convert serde_yaml::Mapping into our own Mapping type
-        n.parameters = n.params.clone().into();
+        n.parameters = Mapping::try_from_yaml(n.params.clone())?;
 
         Ok(n)
     }
